@@ -43,11 +43,14 @@ CSK = dict(unit="crle_seek_u.c", file="hdf/src/crle.c", cex_unwind=14, objbits=1
 ob("crle_seek_init", "C05", entry="h_crle_seek_init", enforce="HCIcrle_init", **CSK)
 ob("crle_seek_term", "C05", entry="h_crle_seek_term", enforce="HCIcrle_term", **CSK)
 _RLE_HELPERS = ["HCIcrle_init", "HCIcrle_term", "HCIcrle_decode"]
-ob("crle_seek", "C05", entry="h_crle_seek", enforce="HCPcrle_seek", replace=_RLE_HELPERS, loops=True, nloops=1, loopcls="P", **CSK)
+# crle_seek: 95 s alone, 200-240 s with the machine loaded (6 KB compinfo_t object) -> thorough
+ob("crle_seek", "C05", entry="h_crle_seek", enforce="HCPcrle_seek", replace=_RLE_HELPERS, loops=True, nloops=1, loopcls="P",
+   timeout=900, tier="thorough", **CSK)
 ob("crle_endaccess", "C05", entry="h_crle_endaccess", enforce="HCPcrle_endaccess", replace=_RLE_HELPERS, **CSK)
 # decoder state on an access that can write (read on a read/write access, then seek back / end access):
+# both FAIL on HEAD (defect: HCIcrle_term runs on decoder state and writes into the compressed stream)
 ob("crle_seek_rdwr", "C05", entry="h_crle_seek", enforce="HCPcrle_seek", replace=_RLE_HELPERS, loops=True, nloops=1, loopcls="P",
-   defines=["SEEK_HIST=1"], **CSK)
+   defines=["SEEK_HIST=1"], timeout=900, tier="thorough", **CSK)
 ob("crle_endaccess_rdwr", "C05", entry="h_crle_endaccess", enforce="HCPcrle_endaccess", replace=_RLE_HELPERS, defines=["SEEK_HIST=1"], **CSK)
 
 # coder restart (term + init as HCPcrle_seek's backward branch does) with the packet-protocol stubs of crle_u.c (harness added to that unit)
@@ -64,10 +67,11 @@ ob("cskphuff_seek", "C05", unit="cskphuff_seek_u.c", file="hdf/src/cskphuff.c", 
 # ----------------------------------------------------------------------------- cdeflate.c: seek
 CDF = dict(unit="cdeflate_seek_u.c", file="hdf/src/cdeflate.c", entry="h_cdeflate_seek", enforce="HCPcdeflate_seek",
            replace=["HCIcdeflate_staccess2", "HCIcdeflate_term", "HCIcdeflate_decode"], loops=True, nloops=1, loopcls="P",
-           cex_unwind=14, objbits=10, timeout=600, **NOMF,
+           cex_unwind=14, objbits=10, timeout=900, tier="thorough", **NOMF,  # 310-330 s each
            trusted=["HCIcdeflate_staccess2/_term/_decode (zlib inside) replaced by counting contracts, not proved here", "Hseek: counts rewinds"])
 ob("cdeflate_seek", "C05", domain="target inside the data (every decode delivers what was asked)", **CDF)
-# target beyond the end of the data: a decode may deliver fewer bytes (0 at the end of the stream) -- the skip loop must still end
+# target beyond the end of the data: a decode may deliver fewer bytes (0 at the end of the stream) -- the skip loop must still end.
+# FAILS on HEAD (loop_decreases: the skip loop does not terminate; confirmed at API level: Hseek(aid, 100000, DF_START) hangs)
 ob("cdeflate_seek_eos", "C05", defines=["EOS"], domain="target possibly beyond the end of the data", **CDF)
 
 # ----------------------------------------------------------------------------- cnone.c: seek
@@ -86,6 +90,5 @@ for _nt in (1, 4):
 # projection).  No answer in 600 s, neither with symbolic L1, L2 in 1..3 nor with constants (-DNB_L1=1 -DNB_L2=2): the 6 KB
 # coder-state object, as the first author found for HCIcnbit_init.  The harness runs natively (replay build): L1=1, L2=2 FAILS
 # its check "partitioned reads deliver the stream values in order" on HEAD, L1=2, L2=1 passes -- see the report.
-# for _l1, _l2 in ((2, 1), (2, 2), (1, 2), (1, 3)):
-#     ob(f"cnbit_decode_part_{_l1}_{_l2}", "C05", entry="h_cnbit_decode_partition", mode="bounded", unwind=8, timeout=600,
-#        defines=[f"NB_L1={_l1}", f"NB_L2={_l2}"], bound=f"nt_size 1, identity projection; a read of {_l1} value(s), then of {_l2}", **CNB)
+# (tried again after the repair D72 with --max-field-sensitivity-array-size 2048 and constant lengths (2,1), (1,2), (1,3): no answer in
+#  900 s either.  The defect was found by a NATIVE run of this harness, and its repair is NOT guarded by any obligation.)
